@@ -105,12 +105,18 @@ def strip_escapes(s):
 
 
 # ------------------------------------------------------------------------------ one evaluation
-def evaluate(tree_json, line, path, behaviour):
+def evaluate(tree_json, line, path, behaviour, warm=False):
     """-> (info, [(signature, what)]).  tree_json: tree without the built-in help; line: final tokens; path: the
-    command path the base line spelled (names/aliases)"""
+    command path the base line spelled (names/aliases); warm: the application has already served the same line without
+    any switch on a terminal (streams with ANSI support) - the switches of a run are that run's business"""
     tree = G.Tree.from_json(tree_json).with_builtin_help()
     rec = G.Recorder(make_behaviour(behaviour))
     app, rec, cfgs = G.build_app(tree, "default", recorder=rec, catch=True, decorate=decorate)
+    if warm:
+        cut = line.index("--") if "--" in line else len(line)
+        G.run_buffered(app, [t for t in line[:cut] if t not in SPELLING_OF] + line[cut:], stdin=STDIN, catch=BaseException,
+                       terminal=True)
+        del rec.calls[:]
     r = G.run_buffered(app, line, stdin=STDIN, catch=BaseException)
 
     before = list(itertools.takewhile(lambda t: t != "--", line))
@@ -356,14 +362,14 @@ def _bounded(ctx):
                 out.append(t)
         return out
 
-    def run_case(tree, line, path, behaviour):
-        info, fails = evaluate(tree.to_json(), line, path, behaviour)
+    def run_case(tree, line, path, behaviour, warm=False):
+        info, fails = evaluate(tree.to_json(), line, path, behaviour, warm)
         has_switch = any(t in SPELLING_OF for t in line)
-        ctx.case([tree.to_json(), line, path, behaviour], nontrivial=has_switch,
+        ctx.case([tree.to_json(), line, path, behaviour, warm], nontrivial=has_switch,
                  sample={"line": line, "behaviour": behaviour, "switches": info["switches"]})
         for sig, what in fails:
-            rep.fail(sig, "%s [%s]: %s" % (" ".join(line), behaviour, what),
-                     {"tree": tree.to_json(), "line": line, "path": path, "behaviour": behaviour})
+            rep.fail(("after-a-run-on-a-terminal|" if warm else "") + sig, "%s [%s]: %s" % (" ".join(line), behaviour, what),
+                     {"tree": tree.to_json(), "line": line, "path": path, "behaviour": behaviour, "warm": warm})
 
     # ---- 1. one switch, every spelling, every slot (before '--' and in the tail), every behaviour
     n_trees, n_lines = (3, 4) if ctx.quick else (40, 8)
@@ -429,6 +435,20 @@ def _bounded(ctx):
         if ctx.out_of_time():
             break
     ctx.done(exhaustive=not ctx.quick, note=rep.note())
+
+    # ---- 2b. one switch on an application that has served a switch-free run on a terminal before
+    ctx.check("single_switch_after_a_terminal_run",
+              "2 seeded trees x up to 3 valid lines x the 13 spellings at one seeded slot x 3 behaviours, on an application "
+              "object that has just run the same line without switches on streams with ANSI support: the switches of the "
+              "second run (on plain buffers) act as on a new application")
+    for tree in trees(2):
+        for path, rest, tail in base_lines(rng, tree, 3):
+            for bi, behaviour in enumerate(BEHAVIOURS):
+                for sp in ALL_SPELLINGS:
+                    run_case(tree, assemble(path, rest, tail, [(rng.randrange(len(path) + len(rest) + 1), sp)]), path, behaviour, warm=True)
+        if ctx.out_of_time():
+            break
+    ctx.done(exhaustive=False, note=rep.note())
 
     # ---- 3. all spelled subsets, orders and positions
     subsets = list(spelled_subsets())
@@ -525,7 +545,7 @@ def replay_bounded(check_id, failure):
         if w.get("invalid"):
             info, fails = {}, evaluate_invalid(w["tree"], w["line"])
         else:
-            info, fails = evaluate(w["tree"], w["line"], w["path"], w["behaviour"])
+            info, fails = evaluate(w["tree"], w["line"], w["path"], w["behaviour"], bool(w.get("warm")))
     finally:
         if old_columns is None:
             os.environ.pop("COLUMNS", None)
